@@ -1526,3 +1526,25 @@ LEVEL_NOTE = (LEVEL_NOTE + " Operands carrying foreign tzinfo kinds (dt-foreign-
               "DateTime.instance() of a native operand re-attaches pendulum's object) for datetime.timezone / ZoneInfo / dateutil tzoffset,tzutc,tzfile (1972..2036, real walls) / user "
               "tzinfo subclasses; key-less ZoneInfo.from_file, pytz and the astimezone() results of this family are ORACLE-ONLY (native twins on the same tzinfo objects); two genuine "
               "defects found there are listed (astimezone-python-fromutc-target, keyless-zoneinfo-operand-raises).")
+
+
+# some override bodies are translated from /repo on every run and their hand models are PROVED equal to the translation
+TRUSTED = list(TRUSTED) + [
+    "tools/vlib/pyfloat2gallina.py + tools/vlib/gens/g71_dropin_methods.py + coq/Model/DropInPrims.v (DateTime.date / time / timetz / __str__, FormattableMixin.for_json / __format__(''), "
+    "DateTime.fromordinal translated from /repo on every run; reading rules in the generator's docstring: self.<field> = the component of the wall value, Date(..) / Time(..) = the observation "
+    "tuple with the class called as type tag, self.isoformat(sep) = native_isoformat, cls.instance(datetime.fromordinal(n), tz=None) = native_fromordinal then pd_instance): "
+    "model_is_code_dropin_date / _time / _timetz / _str_for_json_format / _fromordinal / _time_sub replace the trust in the hand transcription of THESE overrides in coq/Model/DropIn.v "
+    "(closed under the global context)",
+    "coq/Proofs/DropInGlueFacts.v: pd_create / pd_replace / pd_instance / pd_astimezone and fixed_utcoffset / fixed_dst / fixed_fromutc of coq/Model/DropIn.v are PROVED to answer what the bodies of "
+    "DateTime.create / replace / instance / astimezone and FixedTimezone.utcoffset / fromutc / dst translated from /repo on every run answer (coq/Gen/TzGlue.v by g15_tz_glue.py — its reading rules and its "
+    "hand-modelled native calls nat_new / nat_astimezone / nat_add are trusted as listed for C01-C03 — and coq/Gen/DropInMethods.v), through the value bridge tzi_of / dtv_of: model_is_code_dropin_create / "
+    "_replace / _instance / _astimezone / _fixed_timezone. Side conditions: fields and wall value of a real datetime, fold 0 or 1, coherent timezone objects (gtz_ok, same_obj, tz_ok); instance: tz=None and "
+    "the value carries a pendulum timezone object or is naive with fold 0. dropin_instance_naive_fold1_model_differs states where the hand model pd_instance is WRONG (naive value with fold 1: the code keeps "
+    "the fold, the model answers 0; reached by DateTime.combine(date, time(fold=1)); no generated case has that shape). The remaining overrides stay hand-written + pinned (pinned_sources): __sub__ / __rsub__ / "
+    "Interval.__new__, fromtimestamp / utcfromtimestamp, combine / strptime (one-line wrappers of instance), Date.__sub__, _cmp",
+]
+LEVEL_NOTE = LEVEL_NOTE + (" Model = code for the overrides date(), time(), timetz(), __str__, for_json, __format__(''), fromordinal and Time.__sub__: coq/Gen/DropInMethods.v is translated on every run and "
+                           "Proofs/DropInMethodsFacts.v proves it equal to Model/DropIn.v (self-tested by mutation: time() dropping fold again, timetz() without tzinfo, date() with month / day swapped, "
+                           "for_json via str(self)); create, replace, instance, astimezone and FixedTimezone.utcoffset / dst / fromutc are tied to the bodies translated in Gen/TzGlue.v (Proofs/DropInGlueFacts.v), "
+                           "which exposed one wrong answer of the hand model (pd_instance on a naive value with fold 1: dropin_instance_naive_fold1_model_differs). Still hand + pinned: __sub__ / __rsub__ / "
+                           "Interval.__new__, fromtimestamp, utcfromtimestamp, combine, strptime, Date.__sub__, _cmp.")
